@@ -330,6 +330,7 @@ def _exec_post(args):
                 (b1, a1), (b2, a2) = rng.choice(base), rng.choice(base)
                 ants.append(rng.choice([M.And(a1, b2), M.And(a1, M.Not(b1)), M.Or(M.And(a1, M.Not(b1)), M.And(a2, M.Not(b2))), M.And(a1, a2)]))
             cons = [b for b, _ in rng.sample(base, min(len(base), 4))] + [_lit(usesig, rng) for _ in range(4)]
+            cons += [M.Or(_lit(usesig, rng), _lit(usesig, rng)) for _ in range(2)] + [M.And(_lit(usesig, rng), _lit(usesig, rng)) for _ in range(2)]
             pool = [(c, a) for a in ants for c in cons]
             pans = ask(pool)
             true_by_ant = {}
